@@ -61,7 +61,7 @@ def content_partition(units, is_space):
 
 
 def _kf_cluster(shape, inputs, failed):
-    return shape['g'] and set(failed) <= {'operations(corrupted, original) succeeds', 'corrupted text is whitespace-clean again',
+    return shape['g'] and set(failed) <= {'operations(corrupted, original) succeeds',
                                          'one label per character of the corrupted text',
                                          'repair(corrupted, operations(corrupted, original)) == original'}
 
